@@ -26,6 +26,15 @@ def history(tier):
   return queued.history(kinds=KINDS, action_kinds=ACTION_KINDS, max_ops=25, spy=True, bulk=True)
 
 
+def at_capacity(case):
+  """The history starts from a queue that holds exactly its capacity (500 events): after the pop of
+  the current event a handler's second post displaces a queued event (bounded deque) - it is a post
+  made during the step all the same."""
+  sig = case["spec"]["sigs"][0]
+  return dict(case, at_capacity=True, budget=30,
+              ops=[["bulk_post", sig, 500]] + [o for o in case["ops"] if o[0] != "bulk_post"])
+
+
 def spy_lines(raw, HANDLED):
   """Expected spy lines of one step from the handlers' own invocation stream."""
   out = []
@@ -150,7 +159,7 @@ class Run:
       rt.raw.append(("step", e.signal_name))
       return real_dispatch(e)
     self.real.chart.dispatch = dispatch
-    self.model = queued.QModel(case["spec"], budget=budget)
+    self.model = queued.QModel(case["spec"], budget=budget, bounded=bool(case.get("at_capacity")))
     self.exp_full = deque(maxlen=RING)
     self.exp_trace = deque(maxlen=RING)
     self.exp_live_spy = []
